@@ -51,3 +51,18 @@ pub use traits::Transport;
 pub use traits::{DefaultUtpEnvironment, UtpEnvironment};
 
 type Payload = Vec<u8>;
+
+/// Component re-exports for the verification harness (read-only use; nothing here is new code).
+#[cfg(librqbit_utp_verif)]
+pub mod verif_api {
+    pub use crate::congestion::{CongestionController, cubic::Cubic};
+    pub use crate::constants::*;
+    pub use crate::message::UtpMessage;
+    pub use crate::recovery::Recovery;
+    pub use crate::rtte::RttEstimator;
+    pub use crate::seq_nr::SeqNr;
+    pub use crate::stream_rx::{AssemblerAddRemoveResult, OutOfOrderQueue, UserRx};
+    pub use crate::stream_tx::UserTx;
+    pub use crate::stream_tx_segments::{OnAckResult, PopExpiredProbe, Segments};
+    pub use crate::utils::seq_nr_offset;
+}
